@@ -241,6 +241,7 @@ public:
   // ---- EngineBase --------------------------------------------------------------------
   net::StartResult start() override
   {
+    _everStarted.store(true);
     _running.store(true);
     return net::StartResult::ok();
   }
@@ -278,7 +279,9 @@ public:
     SessionId sid;
     {
       std::lock_guard<std::mutex> lk(_mu);
-      if (!_running.load())
+      // like TcpEngine: a STOPPED engine refuses (closed command queue); an engine that has never been
+      // started accepts the command - it is executed once the engine runs
+      if (!_running.load() && _everStarted.load())
         return net::ConnectResult::err(
           net::TransportErrorInfo{net::TransportError::ShuttingDown, "fake: not running"});
       sid = _nextSid++;
@@ -294,7 +297,7 @@ public:
   }
   bool close(SessionId sid) override
   {
-    bool ok = _running.load();
+    bool ok = _running.load() || !_everStarted.load(); // (never started: the command is queued, see connect())
     {
       std::lock_guard<std::mutex> lk(_mu);
       std::uint64_t s = ++_seq;
@@ -339,6 +342,7 @@ private:
   Callbacks _cbs;
   Hooks _hooks;
   std::atomic<bool> _running{false};
+  std::atomic<bool> _everStarted{false};
   std::atomic<int> _connectError{static_cast<int>(net::TransportError::None)};
   std::thread::id _ioId{};
   SessionId _nextSid{1};
